@@ -180,6 +180,7 @@ type MutexState struct {
 	ID      int
 	Owner   *Thread
 	Readers int
+	Pending *Thread // RWMutex: a writer that has called Lock and waits for the readers to leave
 }
 
 // OnceState is the model of one Once.
